@@ -222,6 +222,12 @@ fn prune_driver(name: &'static str, fast: bool) -> Driver {
 /// `repack_all` with one-blob packs: the repack writes more packs per blob type than the pack
 /// writer pipeline holds at once
 fn prune_driver_with(name: &'static str, fast: bool, data_pack: u32, tree_pack: u32, repack_all: bool, cap: Option<usize>) -> Driver {
+    prune_driver_full(name, fast, data_pack, tree_pack, repack_all, cap, false)
+}
+
+/// `forget_all`: no snapshot is left, a non-instant prune marks every pack (its new index file lists
+/// marked packs only)
+fn prune_driver_full(name: &'static str, fast: bool, data_pack: u32, tree_pack: u32, repack_all: bool, cap: Option<usize>, forget_all: bool) -> Driver {
     // three snapshots of the evolving source, the first two forgotten: prune has packs to repack
     let env = Env::single();
     _ = env.init_with(config_with_packs(2, data_pack, tree_pack)).expect("init");
@@ -230,12 +236,12 @@ fn prune_driver_with(name: &'static str, fast: bool, data_pack: u32, tree_pack: 
         let t = crate::c02::source(v);
         let repo = env.open_ids().expect("open");
         _ = backup_with(&repo, &MemSource::new("r", t.clone()), &format!("s{v}"), T0 + 1000 + v as i64, &vkit::rep::bopts()).expect("backup");
-        if v == 2 {
+        if v == 2 && !forget_all {
             _ = expect.insert(format!("s{v}"), model_tree("r", &t));
         }
     }
     let repo = env.open().expect("open");
-    let ids: Vec<_> = repo.get_all_snapshots().unwrap().iter().filter(|s| s.label != "s2").map(|s| s.id).collect();
+    let ids: Vec<_> = repo.get_all_snapshots().unwrap().iter().filter(|s| forget_all || s.label != "s2").map(|s| s.id).collect();
     repo.delete_snapshots(&ids).expect("forget");
     Driver {
         name,
@@ -250,7 +256,7 @@ fn prune_driver_with(name: &'static str, fast: bool, data_pack: u32, tree_pack: 
                     .max_repack(LimitOption::Unlimited)
                     .fast_repack(fast)
                     .repack_all(repack_all)
-                    .keep_delete(jiff::Span::new());
+                    .keep_delete(if forget_all { jiff::Span::new().hours(23) } else { jiff::Span::new() });
                 let plan = repo.prune_plan(&opts).map_err(|e| e.display_log())?;
                 let n = plan.repack_packs().len();
                 repo.prune(&opts, plan).map_err(|e| e.display_log())?;
@@ -351,6 +357,7 @@ pub fn run(args: &Args, rep: &mut Report) {
         prune_driver_with("prune/repack-all-fast/one-blob-packs", true, 10, 10, true, quick.then_some(40)),
         prune_driver_with("prune/repack-all-slow/one-blob-packs", false, 10, 10, true, quick.then_some(40)),
         wide_tree_driver("check+prune-plan/wide-tree", if quick { 2 } else { 40 }),
+        prune_driver_full("prune/mark-all-forgotten", false, 600, 500, false, None, true),
         copy_driver("copy/one-blob-packs"),
     ];
     if let Some(p) = &args.replay {
